@@ -230,7 +230,9 @@ pub fn deep_recursion_probe(n: usize, stack_kib: usize) -> Result<(usize, Option
         return Err(format!("probes/deeprec failed to build:\n{}", err.lines().filter(|l| l.starts_with("error")).take(10).collect::<Vec<_>>().join("\n")));
     }
     // the probe gets a wall limit of its own: a call that never returns there must not hang the check
-    let mut child = Command::new(format!("{target}/debug/deeprec-probe"))
+    let mut probe_cmd = Command::new(format!("{target}/debug/deeprec-probe"));
+    die_with_parent(&mut probe_cmd);
+    let mut child = probe_cmd
         .args([n.to_string(), stack_kib.to_string()])
         .stdin(Stdio::null())
         .stdout(Stdio::piped())
@@ -498,6 +500,7 @@ enum ChildEnd {
 
 fn run_child(exe: &str, args: &[String], limit: Duration, trace: Option<&str>, stall: Option<Duration>) -> ChildEnd {
     let mut cmd = Command::new(exe);
+    die_with_parent(&mut cmd);
     cmd.arg("c03-child").args(args);
     if let Some(t) = trace {
         cmd.arg(t);
